@@ -118,6 +118,39 @@ func runC18(c *Ctx) {
 		if nSet != 1 {
 			c.viol(rule2, "exactly one clientIDAddrMap.Set call", "-", fmt.Sprintf("%d calls", nSet))
 		}
+		// every carrier records its address: from the successful ClientID read no path reaches
+		// the packet loops (the go statements) or a nil-error return without passing Set
+		for _, ci := range callsTo(tm, "io.ReadFull") {
+			rd, _ := ci.(*ssa.Call)
+			if rd == nil {
+				continue
+			}
+			okE := errNilEdges(tm, rd, 1)
+			okSet := len(okE) > 0
+			var wp []*ssa.BasicBlock
+			for _, e := range okE {
+				pth := psSearch(e.To(), nil, func(b *ssa.BasicBlock) bool {
+					for _, in := range b.Instrs {
+						if c2, ok := in.(ssa.CallInstruction); ok && calleeName(c2) == "(*server/lib.clientIDMap).Set" {
+							return true
+						}
+					}
+					return false
+				}, func(b *ssa.BasicBlock) bool {
+					for _, in := range b.Instrs {
+						if _, isGo := in.(*ssa.Go); isGo {
+							return true
+						}
+					}
+					return false
+				})
+				if pth != nil {
+					okSet = false
+					wp = pth
+				}
+			}
+			c.check(okSet, rule2, "turbotunnelMode records the address of every carrier before serving it", p.instrPos(rd), "Set on every path from the ClientID read to the packet loops", "a carrier can be served without its address being recorded (only the first carrier of a ClientID counts): the bridge is told the address of an earlier carrier", p.pathString(wp)...)
+		}
 		// acceptStreams: Get once before the loop, keyed by RemoteAddr().(ClientID)
 		var get *ssa.Call
 		nGet := 0
@@ -169,6 +202,26 @@ func runC18(c *Ctx) {
 			}
 		}
 		c.check(ok, rule2, "proxy sets client_ip to remoteAddr.String()", p.Pos(dch.Pos()), "", "the client_ip sent to the bridge is not the address derived from the client's offer")
+		// the URL that receives the query is parsed by this invocation: a URL object shared between
+		// sessions (cached, package-level) keeps one client's client_ip for the next client
+		nQ := 0
+		allInstrs(dch, func(in ssa.Instruction) {
+			st, okS := in.(*ssa.Store)
+			if !okS {
+				return
+			}
+			base, f, okf := fieldOfAddr(st.Addr)
+			if !okf || f.Name() != "RawQuery" || f.Pkg() == nil || f.Pkg().Path() != "net/url" {
+				return
+			}
+			nQ++
+			cc, idx, okc := callResult1(strip(base))
+			fresh := okc && idx == 0 && calleeName(cc) == "net/url.Parse" && cc.Parent() == dch
+			c.check(fresh, rule2, "the relay URL carrying client_ip is parsed per session", p.instrPos(st), "url.Parse in datachannelHandler", "client_ip is written into a URL object that is not created by this invocation: another session's address stays in it")
+		})
+		if nQ == 0 {
+			c.undecided(rule2, "store to URL.RawQuery in datachannelHandler", p.Pos(dch.Pos()), "none found")
+		}
 	}
 	if rip := p.Fn("proxy/lib", "remoteIPFromSDP"); rip != nil {
 		c.analysedFn(p.FnName(rip))
@@ -294,5 +347,33 @@ func runC18(c *Ctx) {
 	})
 	if nIns != 1 {
 		c.undecided(rule3, "Set inserts into current", p.Pos(set.Pos()), fmt.Sprintf("%d insertions", nIns))
+	}
+	// every Set takes the next slot (recency is refreshed even when the mapping is
+	// unchanged): the only return that skips the insertion is the empty-ring one
+	{
+		nonEmpty := condEdges(set, false, func(a Atom) bool {
+			if a.Op != token.EQL {
+				return false
+			}
+			k, okk := constInt(a.Y)
+			cc, _, okc := callResult(a.X)
+			return okk && k == 0 && okc && calleeName(cc) == "builtin.len" && isFieldLoadOf(cc.Call.Args[0], entF)
+		})
+		okAlways := len(nonEmpty) > 0
+		var wp []*ssa.BasicBlock
+		for _, e := range nonEmpty {
+			if pth := escapesWithout(e.To(), func(in ssa.Instruction) bool {
+				mu, ok := in.(*ssa.MapUpdate)
+				if !ok {
+					return false
+				}
+				_, f, okf := fieldLoad(mu.Map)
+				return okf && f == curF
+			}); pth != nil {
+				okAlways = false
+				wp = pth
+			}
+		}
+		c.check(okAlways, rule3, "Set takes a new slot on every call with a non-empty ring", p.Pos(set.Pos()), "", "a path of Set returns without inserting: a re-presented ClientID is not moved to most recent and is forgotten while older ones are kept", p.pathString(wp)...)
 	}
 }
